@@ -90,6 +90,24 @@ fn main() {
                 reqs.push(prop.gen(&mut rng, tier, i, &mut stats));
             }
             stats.add("generated", n as u64);
+            // KVERIF_NO_EXEC=1: only write the requests (the caller executes them with crash isolation)
+            if std::env::var("KVERIF_NO_EXEC").is_ok() {
+                let mut fr = std::io::BufWriter::new(std::fs::File::create(format!("{}/req.txt", outdir)).unwrap());
+                for r in reqs.iter() {
+                    writeln!(fr, "{}", r).unwrap();
+                }
+                std::fs::write(format!("{}/impl.txt", outdir), "").unwrap();
+                let mut js = String::from("{");
+                for (i, (k, v)) in stats.counts.iter().enumerate() {
+                    if i > 0 {
+                        js.push(',');
+                    }
+                    js.push_str(&format!("\"{}\":{}", k, v));
+                }
+                js.push('}');
+                std::fs::write(format!("{}/stats.json", outdir), js).unwrap();
+                return;
+            }
             // execute in parallel, order preserved
             let nthreads = std::thread::available_parallelism().map(|n| n.get()).unwrap_or(4).min(16);
             let chunk = (reqs.len() + nthreads - 1) / nthreads.max(1);
